@@ -116,6 +116,7 @@ func cmdCheck(args []string) int {
 	verbose := fs.Bool("v", false, "verbose")
 	dumpSMT := fs.String("dumpsmt", "", "write failing queries to this directory")
 	noReplay := fs.Bool("noreplay", false, "skip replay")
+	dumpAll := fs.String("dumpall", "", "write every query to this directory")
 	fs.Parse(args)
 	start := time.Now()
 	seed := 0
@@ -208,6 +209,9 @@ func cmdCheck(args []string) int {
 		if neg.IsFalse() {
 			ex.mu.Unlock()
 			rep.Status = "discharged"
+			if ob.Kind == "cover" {
+				rep.Status = "failed"
+			}
 			rep.Solver = "simplifier"
 			return
 		}
@@ -215,7 +219,17 @@ func cmdCheck(args []string) int {
 		ex.mu.Unlock()
 		w.query = q
 		rep.SMTBytes = len(q)
-		res := solve(q+"(check-sat)\n", fmt.Sprintf("%d", i), quickS, fullS)
+		if *dumpAll != "" {
+			os.MkdirAll(*dumpAll, 0o755)
+			os.WriteFile(filepath.Join(*dumpAll, sanitize(rep.Name)+".smt2"), []byte(q+"(check-sat)\n"), 0o644)
+		}
+		var res SolveResult
+		if ob.Kind == "cover" {
+			// a satisfiability probe: a short attempt is enough (unknown counts as reachable)
+			res = solveQuick(q+"(check-sat)\n", fmt.Sprintf("%d", i), quickS)
+		} else {
+			res = solve(q+"(check-sat)\n", fmt.Sprintf("%d", i), quickS, fullS)
+		}
 		w.res = res
 		rep.Solver = res.Solver
 		rep.Seconds = res.Seconds
@@ -227,6 +241,14 @@ func cmdCheck(args []string) int {
 			rep.Status = "failed"
 		default:
 			rep.Status = "undecided"
+		}
+		if ob.Kind == "cover" {
+			// reachability: the assumptions must NOT be contradictory
+			if res.Status == "unsat" {
+				rep.Status = "failed"
+			} else {
+				rep.Status = "discharged"
+			}
 		}
 	})
 
